@@ -957,6 +957,16 @@ class Dict(dict, base.Symbolic, pg_typing.CustomTyping):
       if self._allow_partial == allow_partial:
         proceed_with_standard_apply = False
       else:
+        if not allow_partial and self.sym_partial:
+          # NOTE: refuse before the flag is changed: a rejected value (which
+          # may be a shared field default) shall not be modified.
+          raise ValueError(
+              utils.message_on_path(
+                  f'Partial Dict cannot be assigned to a field that does '
+                  f'not allow partial values: {self.sym_missing()!r}.',
+                  path,
+              )
+          )
         self._allow_partial = allow_partial
     elif isinstance(value_spec, pg_typing.Dict):
       self._value_spec = value_spec
